@@ -242,7 +242,7 @@ package fun
 //@   requires wf != nil
 //@   ensures atmost: calls(wf) <= old(calls(wf)) + (n > 0 ? n : 0)
 //@   ensures attempted: result != nil ==> calls(wf) > old(calls(wf))
-//@   loop 1 invariant 0 <= i && (n > 0 ==> i <= n) && calls(wf) == old(calls(wf)) + i && (err != nil ==> i > 0)
+//@   loop 1 invariant 0 <= i && i <= (n > 0 ? n : 0) && calls(wf) == old(calls(wf)) + i && (err != nil ==> i > 0)
 
 // PreHook: the hook runs (exactly once) before the worker; PostHook: the hook
 // runs exactly once after the worker returned.
@@ -315,7 +315,7 @@ package fun
 //@   requires pf != nil
 //@   ensures atmost: calls(pf) <= old(calls(pf)) + (n > 0 ? n : 0)
 //@   ensures attempted: result1 != nil ==> calls(pf) > old(calls(pf))
-//@   loop 1 invariant 0 <= i && (n > 0 ==> i <= n) && calls(pf) == old(calls(pf)) + i && (err != nil ==> i > 0)
+//@   loop 1 invariant 0 <= i && i <= (n > 0 ? n : 0) && calls(pf) == old(calls(pf)) + i && (err != nil ==> i > 0)
 
 // Operation.Limit(n): the admission test moves the counter from k < n to k+1
 // exactly when it answers true, and never past n: at most n executions.
